@@ -597,6 +597,9 @@ def _check_rename(repo, col):
                         f"carried (defaults changed by the user) are lost by the renaming", node=s_.node)
         if rw.get(pa) and rw.get(st):
             (Ka, Va, Sa), (Kb, Vb, Sb) = rw[pa], rw[st]
+            from sa.terms import canon as _canon
+            # a local helper that computes the new key (`renamed(key)`, with an early return for the keys that stay) is looked through
+            Ka, Kb = (_canon(idx.inline(repo, fi, K_, value_only=True)) for K_ in (Ka, Kb))
             own = lambda S, d: S.op == "attr" and S.name == d and S.args[0].op == "param" and S.args[0].name == "self"
             same = Ka.key() == Kb.key() and Va.key() == Vb.key() and own(Sa, pa) and own(Sb, st)
             col.check(same, "R-C04-rename", fi, f"{pa} / {st} rewriting",
